@@ -252,6 +252,27 @@ func reflectModels() map[string]modelFn {
 		}
 		return Bool{C: !rv.RO}
 	})
+	v("Convert", func(ex *Exec, rv RV, a []Val) Val {
+		if rv.T == nil {
+			ex.rpanic("reflect: call of reflect.Value.Convert on zero Value")
+		}
+		t := ex.argRT(a[0], "Convert")
+		if t == nil || !types.ConvertibleTo(rv.T, t) {
+			ex.rpanic("reflect.Value.Convert: value of type %s cannot be converted to type %s", typeString(rv.T), typeStringOr(t, "nil"))
+		}
+		if _, isI := t.Underlying().(*types.Interface); isI {
+			return RV{T: t, V: rv.asIface(), RO: rv.RO}
+		}
+		val := rv.val()
+		if ifc, ok := val.(Iface); ok && rv.kind() == kInterface {
+			val = ifc.V
+		}
+		return RV{T: t, V: ex.convert(val, rv.T, t), RO: rv.RO}
+	})
+	v("CanConvert", func(ex *Exec, rv RV, a []Val) Val {
+		t := ex.argRT(a[0], "CanConvert")
+		return Bool{C: rv.T != nil && t != nil && types.ConvertibleTo(rv.T, t)}
+	})
 	v("Comparable", func(ex *Exec, rv RV, a []Val) Val {
 		if rv.T == nil {
 			return Bool{C: true}
